@@ -311,7 +311,9 @@ def expr_key(n):
         return expr_key(kids(n)[0]) + '[' + expr_key(kids(n)[1]) + ']'
     if k in ('CXXMemberCallExpr',):
         o = call_obj(n)
-        return (expr_key(o) if o is not None else '') + '.' + n.get('cn', '?') + '(' + ','.join(expr_key(a) for a in call_args(n)) + ')'
+        ok_ = expr_key(o) if o is not None else ''
+        pre = '' if ok_ in ('this', '') else ok_ + '.'
+        return pre + n.get('cn', '?') + '(' + ','.join(expr_key(a) for a in call_args(n) if a['k'] != 'CXXDefaultArgExpr') + ')'
     if k == 'CXXOperatorCallExpr':
         ops = kids(n)[1:]
         if n.get('op') == '[]' and len(ops) == 2:
